@@ -1167,6 +1167,110 @@ def predicate_implied_by(P, fn_qual, trigger_rx, arg_rx=None, arg=0):
     return r
 
 
+# ------------------------------------------------------------------------------ paired update on the Ok side of a fallible step
+def on_ok_must_pass(P, fn_qual, producer_rx, callee_rx, what):
+    """F calls a fallible step R = producer(..) and keeps going when R is Err under some conditions. On every path to a success return
+    on which R can be Ok, a call matching callee_rx is passed. Path-sensitive in the variant of R only: tests of R (`if let Ok(..) = &R`,
+    `R.is_ok()`, `R.is_err()`, `R?`) fix the variant along a path; every other branch is taken both ways."""
+    fn = P.fn(fn_qual)
+    body = P.body(fn)
+    prx, crx = re.compile(producer_rx), re.compile(callee_rx)
+    r = Res()
+    prods = body.calls(lambda t: call_matches(t, prx))
+    if not prods:
+        raise AnchorMissing('`%s` has no call matching %s' % (fn_qual, producer_rx))
+    goal = set(bi for bi, t in body.calls(lambda t: call_matches(t, crx)))
+    if not goal:
+        r.bad('call-missing', '`%s` no longer calls %s' % (fn['qual'], callee_rx))
+        return r
+    errs = set(body.err_blocks)
+    for pbi, pt in prods:
+        if pt['dest']['p']:
+            continue
+        R = pt['dest']['l']
+        alias = {R}
+        changed = True
+        while changed:
+            changed = False
+            for b in body.B:
+                for st in b['st']:
+                    rv = st['rv']
+                    src = None
+                    if rv['k'] == 'ref' and not [e for e in rv['pl']['p'] if e != '*']:
+                        src = rv['pl']['l']
+                    elif rv['k'] == 'use' and rv['o']['k'] in ('copy', 'move') and not [e for e in rv['o']['pl']['p'] if e != '*']:
+                        src = rv['o']['pl']['l']
+                    if src in alias and not st['lhs']['p'] and st['lhs']['l'] not in alias:
+                        alias.add(st['lhs']['l'])
+                        changed = True
+        # locals that TEST the variant: local -> {switch value: variant}
+        tests = {}
+        for bi, b in enumerate(body.B):
+            for st in b['st']:
+                rv = st['rv']
+                if rv['k'] == 'discr' and rv['pl']['l'] in alias and not [e for e in rv['pl']['p'] if e != '*'] and not st['lhs']['p']:
+                    tests[st['lhs']['l']] = {'0': 'Ok', '1': 'Err'}
+            t = b['term']
+            if t['k'] == 'call' and t['args'] and not t['dest']['p']:
+                a0 = t['args'][0]
+                if a0['k'] in ('copy', 'move') and a0['pl']['l'] in alias and not [e for e in a0['pl']['p'] if e != '*']:
+                    cn = _nogen(callee_path(t))
+                    if cn.endswith('::is_ok'):
+                        tests[t['dest']['l']] = {'0': 'Err', '1': 'Ok'}
+                    elif cn.endswith('::is_err'):
+                        tests[t['dest']['l']] = {'0': 'Ok', '1': 'Err'}
+                    elif cn.endswith('Try::branch'):
+                        tests['cf:%d' % t['dest']['l']] = True
+        for bi, b in enumerate(body.B):          # discriminant of the ControlFlow that `R?` produced
+            for st in b['st']:
+                rv = st['rv']
+                if rv['k'] == 'discr' and ('cf:%d' % rv['pl']['l']) in tests and not rv['pl']['p'] and not st['lhs']['p']:
+                    tests[st['lhs']['l']] = {'0': 'Ok', '1': 'Err'}
+        start = pt['t']
+        r.site('%s @%s %s' % (fn['qual'], body.ln(pbi), callee_name(pt)))
+        seen = set()
+        stack = [(start, None, (start,))]
+        witness = None
+        while stack and witness is None:
+            bi, var, path = stack.pop()
+            if (bi, var) in seen or bi is None or bi < 0:
+                continue
+            seen.add((bi, var))
+            if bi in goal or bi in errs:
+                continue
+            t = body.term(bi)
+            if t['k'] == 'return':
+                if var != 'Err':
+                    witness = path
+                continue
+            if t['k'] == 'switch' and t['d']['k'] in ('copy', 'move') and not t['d']['pl']['p'] and isinstance(tests.get(t['d']['pl']['l']), dict):
+                mp = tests[t['d']['pl']['l']]
+                taken = set()
+                for v, tgt in t['ts']:
+                    taken.add(str(v))
+                    nv = mp.get(str(v))
+                    if nv and var and nv != var:
+                        continue
+                    stack.append((tgt, nv or var, path + (tgt,)))
+                rest = [x for k_, x in mp.items() if k_ not in taken]
+                if t['o'] is not None and t['o'] >= 0 and body.B[t['o']]['term']['k'] != 'unreachable':
+                    nv = rest[0] if len(rest) == 1 else None
+                    if not (nv and var and nv != var):
+                        stack.append((t['o'], nv or var, path + (t['o'],)))
+                continue
+            for sx in body.succs(bi):
+                stack.append((sx, var, path + (sx,)))
+        if witness:
+            lines = []
+            for x in witness:
+                ln = body.ln(x)
+                if not lines or lines[-1] != ln:
+                    lines.append(ln)
+            r.bad('ok-path-bypass', 'in `%s` %s: a success return is reachable on which %s succeeded and %s was not passed'
+                  % (fn['qual'], what, callee_name(pt), callee_rx), where=lines[:10])
+    return r
+
+
 # ------------------------------------------------------------------------------ in-place operation (no temporary copy)
 _COPY_CALL = re.compile(r'(::clone$|::cloned$|::to_owned$|::copied$|::to_vec$|mem::take$|mem::replace$)')
 
